@@ -44,6 +44,13 @@ pub fn mate_net_pos(e: &mut Entropy) -> Option<Pos> {
     for _ in 0..e.pick(3) {
         place(&mut p, e, o::mk(true, o::P), None);
     }
+    // promotion motif: an attacker's pawn on the 7th rank (under-promotions can be the key)
+    if e.chance(1, 3) {
+        let f = e.pick(8) as i32;
+        if p.sq[o::sq(f, 6)] == 0 && p.sq[o::sq(f, 7)] == 0 {
+            p.sq[o::sq(f, 6)] = o::mk(true, o::P);
+        }
+    }
     // defenders: pawn shield near the king, maybe a piece
     for _ in 0..e.pick(4) {
         place(&mut p, e, o::mk(false, o::P), Some(bk));
@@ -55,6 +62,38 @@ pub fn mate_net_pos(e: &mut Entropy) -> Option<Pos> {
     p.wtm = e.pick(3) != 0;
     p.hmc = e.pick(21) as u32;
     p.fmn = 1 + e.pick(80) as u32;
+    if e.pick(2) == 1 {
+        p = p.mirror();
+    }
+    if p.is_valid_start().is_err() {
+        return None;
+    }
+    Some(p)
+}
+
+/// Minor-piece ending around a cornered king: kings plus at most one bishop or knight per
+/// side.  Mates in one exist here (e.g. Kb6 + Nc7# against Ka8 with its own piece on b8) but
+/// are rare; the defender's piece is put next to its king to block a flight square.
+pub fn minor_ending_pos(e: &mut Entropy) -> Option<Pos> {
+    let mut p = Pos::empty();
+    let corner = [0usize, 7, 56, 63][e.pick(4)];
+    let near: Vec<usize> = (0..64).filter(|&s| s != corner && (o::file_of(s) - o::file_of(corner)).abs() <= 1 && (o::rank_of(s) - o::rank_of(corner)).abs() <= 1).collect();
+    let bk = if e.chance(1, 4) { near[e.pick(near.len())] } else { corner };
+    p.sq[bk] = o::mk(false, o::K);
+    // attacker king two squares away
+    let wkc: Vec<usize> = (0..64).filter(|&s| { let d = (o::file_of(s) - o::file_of(bk)).abs().max((o::rank_of(s) - o::rank_of(bk)).abs()); d == 2 }).collect();
+    let wk = wkc[e.pick(wkc.len())];
+    p.sq[wk] = o::mk(true, o::K);
+    // defender's minor next to its king (blocks a flight square), attacker's minor anywhere
+    let adj: Vec<usize> = (0..64).filter(|&s| p.sq[s] == 0 && (o::file_of(s) - o::file_of(bk)).abs() <= 1 && (o::rank_of(s) - o::rank_of(bk)).abs() <= 1).collect();
+    if !adj.is_empty() && !e.chance(1, 5) {
+        p.sq[adj[e.pick(adj.len())]] = o::mk(false, [o::N, o::B][e.pick(2)]);
+    }
+    let free: Vec<usize> = (0..64).filter(|&s| p.sq[s] == 0).collect();
+    p.sq[free[e.pick(free.len())]] = o::mk(true, [o::N, o::B][e.pick(2)]);
+    p.wtm = e.pick(4) != 0;
+    p.hmc = e.pick(21) as u32;
+    p.fmn = 40 + e.pick(40) as u32;
     if e.pick(2) == 1 {
         p = p.mirror();
     }
@@ -207,7 +246,18 @@ pub fn run(ctx: &Ctx) -> Report {
     }
     let cases = ctx.tier.pick(64_000, 1_600_000) / ctx.shard_count() as u32;
     run_prop(ctx, "c12", cases, 400, strategy(), &mut rep, |c, rep| {
-        let p = if c.src < 5 {
+        let p = if c.src == 4 {
+            match minor_ending_pos(&mut Entropy::new(&c.ent)) {
+                Some(p) => {
+                    rep.class("source:minor-piece-ending");
+                    p
+                }
+                None => {
+                    rep.class("source:rejected");
+                    return Ok(());
+                }
+            }
+        } else if c.src < 5 {
             match mate_net_pos(&mut Entropy::new(&c.ent)) {
                 Some(p) => {
                     rep.class("source:mate-net");
@@ -279,7 +329,7 @@ pub fn replay(_ctx: &Ctx, case: &Value) -> Report {
 }
 
 pub const LEVEL: &str = "exploration";
-pub const RULE: &str = "positions (FEN-loaded, no history, half-move clock <= 20) that the oracle's exhaustive 3-ply analysis classifies as M1 (mate in one exists), M2 (no M1, forced mate in two exists) or T (some legal move allows a mate in one and some does not): constructed mate nets (heavy pieces vs an edge king with a pawn shield), positions of weighted play retracted 0-3 plies from where it ended, and the corpus; x a generated search history on the live cache (0..3 earlier searches of the same position at depths 1..5, never cleared, then depth 3 or 4). Predicates on the move of the last search: M1 => it mates; M2 => it keeps a forced mate (classified: keeps the mate in two / a longer forced mate proven within 4 moves by an AND-OR solver / inconclusive; violation only when provably no forced mate is left: stalemate or a reply reaches a dead position); always => it does not allow a mate in one when a safe move exists. Non-trivial = every classified case; distinct by (class, position, history).";
+pub const RULE: &str = "positions (FEN-loaded, no history, half-move clock <= 20) that the oracle's exhaustive 3-ply analysis classifies as M1 (mate in one exists), M2 (no M1, forced mate in two exists) or T (some legal move allows a mate in one and some does not): constructed mate nets (heavy pieces vs an edge king with a pawn shield, sometimes with a pawn on the 7th rank), minor-piece endings around a cornered king, positions of weighted play retracted 0-3 plies from where it ended, and the corpus; x a generated search history on the live cache (0..3 earlier searches of the same position at depths 1..5, never cleared, then depth 3 or 4). Predicates on the move of the last search: M1 => it mates; M2 => it keeps a forced mate (classified: keeps the mate in two / a longer forced mate proven within 4 moves by an AND-OR solver / inconclusive; violation only when provably no forced mate is left: stalemate or a reply reaches a dead position); always => it does not allow a mate in one when a safe move exists. Non-trivial = every classified case; distinct by (class, position, history).";
 pub const ASSUMPTIONS: &[&str] = &[
     "the oracle's exhaustive mate-in-1 / forced-mate-in-2 / allows-mate-in-1 predicates (vf/mate.rs)",
     "the chosen move is read from the search's own bestmove line (captured stdout), falling back to the root cache entry",
